@@ -426,6 +426,20 @@ def b_divmod(I, args, kw):
     return VTuple([I.binop(ast.FloorDiv(), args[0], args[1]), I.binop(ast.Mod(), args[0], args[1])])
 
 
+def b_floor(I, args, kw):
+    k, t = I.num(args[0])
+    if k is None:
+        I.raise_("TypeError")
+    return VInt(t if k == "int" else z3.ToInt(t))
+
+
+def b_ceil(I, args, kw):
+    k, t = I.num(args[0])
+    if k is None:
+        I.raise_("TypeError")
+    return VInt(t if k == "int" else -z3.ToInt(-t))
+
+
 def b_iter_identity(I, args, kw):
     return args[0]
 
@@ -437,7 +451,7 @@ BUILTINS = {
     "sum": b_sum, "any": b_any, "all": b_all, "sorted": b_sorted, "callable": b_callable, "hasattr": b_hasattr,
     "getattr": b_getattr, "setattr": b_setattr, "print": b_print, "type": b_type, "id": b_id, "partial": b_partial,
     "bytes": b_bytes, "chr": b_chr, "ord": b_ord, "divmod": b_divmod, "iter": b_iter_identity,
-    "frozenset": b_set,
+    "frozenset": b_set, "floor": b_floor, "ceil": b_ceil,
 }
 
 
@@ -788,6 +802,7 @@ def setitem(I, base, idx, val):
             I.set_container(base.ref, c.set(k, val))
             return
         kt = to_term(idx, c.kshape)
+        I.dmap_keys.setdefault(base.ref, []).append(kt)
         I.set_container(base.ref, DMap(z3.Store(c.arr, kt, to_term(I.force(val), c.vshape)),
                                        z3.Store(c.dom, kt, True), c.kshape, c.vshape))
         return
